@@ -84,8 +84,12 @@ def gen(rng, n, tier):
                 ax = rng.randrange(k)
                 ops.append(["accumulate", ax]); args.append([names[cur[ax]] if rng.random() < 0.5 else ax])
         if not ops: continue
-        yield [["bucket", "%dd/%s/%s" % (nd, "data" if data != "none" else "direct", "+".join(o[0] for o in ops))],
-               ["hist", h], ["names", names], ["ops", ops], ["args", args], ["data", data]]
+        special = "none"
+        if data == "none" and nd in (2, 3) and all(o[0] != "T" for o in ops) and rng.random() < 0.25:
+            # the same bins and contents held by a coordinate-system histogram (its axes carry the case's own names)
+            special = rng.choice(["PolarHistogram"] if nd == 2 else ["SphericalHistogram", "CylindricalHistogram"])
+        yield [["bucket", "%dd/%s/%s%s" % (nd, "data" if data != "none" else "direct", "+".join(o[0] for o in ops), "" if special == "none" else "/" + special)],
+               ["hist", h], ["names", names], ["ops", ops], ["args", args], ["data", data], ["special", special]]
 
 def _obs(h):
     import numpy as np
@@ -97,6 +101,9 @@ def impl(case):
     import numpy as np, physt
     d = sx.rec(case); hd = sx.rec(d["hist"])
     h = C.mk_hist(hd)
+    if d.get("special", "none") != "none":
+        from physt import special_histograms as sp
+        h = getattr(sp, d["special"])(h._binnings, h.frequencies, errors2=h.errors2, axis_names=list(h.axis_names), missed=float(h.missed), dtype=h.dtype)
     flags = "nodata"
     if d["data"] != "none":
         rows = np.array([[float(x) for x in r] for r in d["data"]], dtype=float).reshape(-1, h.ndim)
